@@ -4,6 +4,13 @@ import Stackage.Model.Traverse
 namespace Stackage.Driver
 open Stackage
 
+/-- the harness's `Describe` cannot name an installed closure (only its presence is observable): print without them -/
+partial def stripPol : Val → Val
+  | .stk f c xs => .stk f { c with ppf := none, vpf := none, rpf := none, eqf := none, umf := none, maf := none, evl := none } (xs.map stripPol)
+  | .cnd f c kw op ex => .cnd f { c with ppf := none, vpf := none, rpf := none, eqf := none, umf := none, maf := none, evl := none } kw op (stripPol ex)
+  | .anys xs => .anys (xs.map stripPol)
+  | v => v
+
 def runPaths (payload : String) : String × String × String :=
   match payload.splitOn " | " with
   | [tree, ops] =>
@@ -12,9 +19,9 @@ def runPaths (payload : String) : String × String × String :=
       let s : Stk := { cfg := c, xs := xs }
       let paths : List (List Int) := (ops.splitOn " ; ").map (fun o => ((words o).drop 1).map toInt)
       let m := paths.map (fun p => match s.traverse closures p with
-        | .ok (v, ok) => s!"{showVal v}:{b01 ok}"
+        | .ok (v, ok) => s!"{showVal (stripPol v)}:{b01 ok}"
         | .error f => f.toString)
-      let sp := paths.map (fun p => let r := descent closures s p; s!"{showVal r.1}:{b01 r.2}")
+      let sp := paths.map (fun p => let r := descent closures s p; s!"{showVal (stripPol r.1)}:{b01 r.2}")
       (" ; ".intercalate m, " ; ".intercalate sp, "")
     | _ => ("BADCASE", "BADCASE", "")
   | _ => ("BADCASE", "BADCASE", "")
